@@ -154,12 +154,26 @@ func OsRename(oldpath, newpath string) error {
 // Publish, if set, replaces (*p2p.P2PNode).Publish: node is the *P2PNode.
 var Publish func(node any, ctx context.Context, topic string, message []byte) error
 
-// Yield, if set, is called at the yield points the build overlay inserts in front of statements
-// that use package sync in the HTTP API packages (site = file:line).
+// Yield, if set, is called at the yield points the build overlay inserts in the HTTP API packages
+// (site = file:line): in front of statements that use package sync and, in hand-written files, of
+// statements that touch a field through a pointer or a package-level variable.
 var Yield func(site string)
 
+// LockDepth counts the sync.Mutex / RWMutex / Once sections the running request goroutine is in
+// (the overlay brackets them with Locked(+1) / Locked(-1)). A goroutine is never parked inside one:
+// whoever the scheduler released next could block on that lock, outside every seam. One counter
+// is enough because the scheduler lets one goroutine run at a time.
+var LockDepth int
+
+func Locked(d int) {
+	LockDepth += d
+	if LockDepth < 0 {
+		LockDepth = 0
+	}
+}
+
 func YieldPoint(site string) {
-	if Yield != nil {
+	if Yield != nil && LockDepth == 0 {
 		Yield(site)
 	}
 }
